@@ -270,3 +270,33 @@ def oriented(node, is_left):
     if is_left(b):
         return _FLIP_OP[op], b, a
     return None
+
+
+def extent_of(e):
+    """(text of X, k) when e is `X.size(k)` or `X.shape[k]` with a constant k, else None."""
+    import ast as _a
+    if isinstance(e, _a.Call) and isinstance(e.func, _a.Attribute) and e.func.attr == "size" and len(e.args) == 1 and not e.keywords:
+        k = e.args[0]
+        base = e.func.value
+    elif isinstance(e, _a.Subscript) and isinstance(e.value, _a.Attribute) and e.value.attr == "shape":
+        k = e.slice
+        base = e.value.value
+    else:
+        return None
+    if isinstance(k, _a.UnaryOp) and isinstance(k.op, _a.USub) and isinstance(k.operand, _a.Constant) and isinstance(k.operand.value, int):
+        return u(base), -k.operand.value
+    if isinstance(k, _a.Constant) and isinstance(k.value, int):
+        return u(base), k.value
+    return None
+
+
+def under_flag(guards, text: str, val: bool = True) -> bool:
+    """Is the guarded node only reached when the boolean expression `text` has value `val`? Understands the two spellings
+    `if text:` / `if not text:` and both arms."""
+    for t, pol in guards:
+        s = u(t)
+        if s == text and pol == val:
+            return True
+        if s == f"not {text}" and pol != val:
+            return True
+    return False
